@@ -187,6 +187,22 @@ def eval_case(case):
     if hspan.contains(gf2.row_to_int(rep)):
         fail('representative_nontrivial', 'the weight-d logical is a stabilizer')
 
+    # the value written to result files (the recorded inputs of a simulation
+    # on this code) and reported with the results is that same d
+    from panqec.error_models import PauliErrorModel
+    from panqec.decoders import BeliefPropagationOSDDecoder
+    from panqec.simulation import DirectSimulation
+    em_ = PauliErrorModel(1 / 3, 1 / 3, 1 / 3)
+    sim_ = DirectSimulation(code, em_, BeliefPropagationOSDDecoder(code, em_, 0.1), 0.1, verbose=False)
+    rec = sim_.get_results_to_save()['inputs']['code']
+    if int(rec['d']) != d or int(rec['n']) != n or int(rec['k']) != Lx.shape[0]:
+        fail('recorded_d_is_reported_d',
+             f"a simulation on this code records n, k, d = {rec['n']}, {rec['k']}, {rec['d']}; "
+             f'the code reports {n}, {Lx.shape[0]}, {d}')
+    got_ = sim_.get_results()
+    if 'd' in got_ and int(got_['d']) != d:
+        fail('recorded_d_is_reported_d', f"get_results()['d'] = {got_['d']}, code.d = {d}")
+
     css = not bool(((H[:, :n].sum(axis=1) > 0) & (H[:, n:].sum(axis=1) > 0)).any())
     budget = case['budget']
     decided = True
